@@ -227,6 +227,28 @@ class ClassInfo:
             elif isinstance(st, ast.AnnAssign) and isinstance(st.target, ast.Name):
                 self.fields.append(st.target.id)
 
+    def lookup(self, name, _depth=0):
+        """method / property lookup along the base classes defined in the verified package"""
+        if name in self.methods:
+            return self.methods[name], self
+        if _depth > 8:
+            return None, None
+        for b in self.bases:
+            bn = b.split("[")[0].split(".")[-1]
+            base = self.module.classes.get(bn)
+            if base is None and bn in self.module.imports:
+                try:
+                    from . import extract
+                    cand = extract.find(self.module.imports[bn])
+                    base = cand if isinstance(cand, ClassInfo) else None
+                except Exception:
+                    base = None
+            if base is not None and base is not self:
+                m, owner = base.lookup(name, _depth + 1)
+                if m is not None:
+                    return m, owner
+        return None, None
+
     def __repr__(self):
         return f"<Class {self.qualname}>"
 
